@@ -32,6 +32,9 @@ func knownCommon(w *World, v *Violation) string {
 	if w.F3Exposed && !w.Cfg.SkipFast && fastPathObserver(v.Obs) {
 		return "F3"
 	}
+	if w.F29Exposed {
+		return "F29"
+	}
 	if w.F1Exposed && (strings.HasSuffix(v.Obs, ".hash") || strings.Contains(v.Obs, "proof.")) {
 		return "F1"
 	}
